@@ -39,3 +39,24 @@ func init() {
 		BudgetQuick: 5 * time.Minute, BudgetThorough: 30 * time.Minute,
 	}
 }
+
+func init() {
+	cb := []string{"callback.success", "callback.failure-message", "callback.http-error", "callback.form", "callback.redirect", "callback.fault"}
+	common := []string{
+		"storage contract: a lookup that returns a nil error returns a non-nil record; every storage call may fail",
+		"stored request: binding POST, Redirect or any other string; every other field an arbitrary string",
+		"provider built by NewProvider with a static https issuer and default endpoints; signature algorithm and WantAuthRequestsSigned arbitrary strings",
+		"encoding/xml, html/template, flate, base64, url escaping, time formatting, uuid: contracts of DESIGN §3.6 (serialisation is an injective function of the value; escaping is the library's)",
+		"http.ResponseWriter never fails; request methods other than OPTIONS",
+	}
+	for _, id := range []string{"C01", "C03"} {
+		specs[id] = &propSpec{ID: id, Harnesses: []string{"HarnessCallback"}, Covers: cb, Assumptions: common,
+			BudgetQuick: 8 * time.Minute, BudgetThorough: 40 * time.Minute}
+	}
+}
+
+func init() {
+	specs["C04"] = &propSpec{ID: "C04", Harnesses: []string{"HarnessCallback"}, Covers: []string{"C04.enveloped-success", "C04.redirect-success"},
+		Assumptions: []string{"see DESIGN §5 C04: composition level; xmlsig-vs-C14N agreement and RSA/SHA are outside the claim"},
+		BudgetQuick: 8 * time.Minute, BudgetThorough: 40 * time.Minute, CVC5First: true}
+}
